@@ -298,6 +298,23 @@ class ValueGen:
             ):
                 op["intr"] = int(min(400, max(1, rng.expovariate(1.0 / self.cfg.get("intr_mean", 40)))))
                 op["f"] = "F7.interrupt"
+                if rng.random() < 0.5 and not getattr(self, "plan", None):
+                    # what a user does after Ctrl-C: the same call again
+                    again = {k: v for k, v in op.items() if k not in ("intr", "f", "i")}
+                    again["c"] = client
+                    self.plan = [again]
+            elif (
+                (op.get("f") or "").startswith("F1.")
+                and op["k"].startswith("flt.incompatible.")
+                and self.cfg.get("intr_rate", 0) > 0
+                and rng.random() < 0.5 * self.cfg["intr_rate"]
+                and not getattr(self, "plan", None)
+            ):
+                # a call that has to be refused is itself cut short, then issued again
+                again = {k: v for k, v in op.items() if k != "i"}
+                again["c"] = client
+                self.plan = [again]
+                op["intr"] = int(min(300, max(1, rng.expovariate(1.0 / self.cfg.get("intr_mean", 40)))))
             elif (
                 not op.get("f")
                 and self.cfg.get("peer_rate", 0) > 0
@@ -1316,11 +1333,27 @@ class ValueGen:
         u, _ = _barril()
         b = self.qt()
         un, c = self.unit_of(b), self.cat_of(b)
-        form = rng.choice(["dim_lt2", "dim_lt2_c", "len_mismatch", "len_mismatch_q", "cwq_mismatch", "cwq_short", "both_values", "copy_len", "copy_len", "copy_len_unit", "copy_len_unit", "nd_shape", "nd_shape", "empty_mismatch", "empty_lt2"])
+        form = rng.choice(["dim_lt2", "dim_lt2_v", "dim_lt2_v", "dim_lt2_c", "len_mismatch", "len_mismatch_q", "cwq_mismatch", "cwq_short", "both_values", "copy_len", "copy_len", "copy_len_unit", "copy_len_unit", "nd_shape", "nd_shape", "empty_mismatch", "empty_lt2"])
         spec = [{"o": "raises", "p": "C11", "id": "C11.reject_contradiction", "cls": ["ValueError"], "case": form}]
         if form == "dim_lt2":
             d = rng.choice([1, 0, -1])
             o = self.op("mk.FixedArray.dVu", "FixedArray", "()", [d, self.container(max(d, 0), kinds=("L", "T", "N")), un])
+        elif form == "dim_lt2_v":
+            # an explicit dimension below 2 together with two or more values, through every route
+            d = rng.choice([0, 0, 1, -1])
+            V = self.container(rng.choice([2, 3]), kinds=("L", "T", "N"))
+            route = rng.choice(["ctor", "ctor_c", "empty_v", "cwq_d", "cwq_d"])
+            if route == "ctor":
+                o = self.op("mk.FixedArray.dVu", "FixedArray", "()", [d, V, un])
+            elif route == "ctor_c":
+                o = self.op("mk.FixedArray.dcVu", "FixedArray", "()", [d, c, V, un])
+            elif route == "empty_v":
+                o = self.op("mk.FixedArray.empty_v", "FixedArray", "CreateEmptyArray", [d, V])
+            else:
+                q = self.quant(sim)
+                if q is None:
+                    return None
+                o = self.op("mk.FixedArray.cwq_d", "FixedArray", "CreateWithQuantity", [ref(q[0]), V], kw={"dimension": d})
         elif form == "dim_lt2_c":
             o = self.op("mk.FixedArray.dc", "FixedArray", "()", [rng.choice([1, 0]), c])
         elif form == "len_mismatch":
